@@ -393,30 +393,22 @@ def rule_call_validation(ctx, ix):
         ctx.ok("C10.must-pass-through", "compile/_tensor_method.py:TensorMethod.__init__:signature")
     else:
         ctx.fail("C10.must-pass-through", "compile/_tensor_method.py:TensorMethod.__init__:signature", "signature is not one keyword-only parameter per input tensor")
-    # output dimensions from target indexes; BroadcastTargetIndexError guarantees the key exists
+    # BroadcastTargetIndexError in __init__ guarantees that every target index has a participant
+    # (so the per-target-index lookup of the validated sizes cannot fail with KeyError)
     ctx.instance("C10.must-pass-through")
-    od = [s for s in doms if isinstance(s, ast.Assign) and u(s.targets[0]) == "output_dimensions"]
-    key = "compile/_tensor_method.py:TensorMethod.__call__:output dimensions"
-    if od and norm(od[0].value) == "tuple((index_sizes[index] for index in self._problem.assignment.target.indexes))":
-        s = u(init)
-        if "for output_index in problem.assignment.target.indexes:" in s and "if output_index not in input_indexes:" in s and "raise BroadcastTargetIndexError(output_index, problem.assignment)" in s and "input_indexes = set(problem.assignment.expression.index_participants().keys())" in s:
-            ctx.ok("C10.must-pass-through", key)
-        else:
-            ctx.fail("C10.must-pass-through", key, "TensorMethod.__init__ does not reject target indexes missing from the right-hand side (KeyError at call time)")
-    else:
-        ctx.fail("C10.must-pass-through", key, "output dimensions are not taken per target index from the validated index sizes")
-    # arguments passed to the kernel in problem.formats order, inputs from bound arguments
-    ctx.instance("C10.must-pass-through")
-    key = "compile/_tensor_method.py:TensorMethod.__call__:kernel arguments"
-    s = u(node)
-    if (
-        "all_arguments = {self._output_name: output, **" + bound + "}" in s
-        and "cffi_args = [all_arguments[name].cffi_tensor for name in self._problem.formats.keys()]" in s
-        and u(kernel) == "self._evaluate(*cffi_args)"
-    ):
+    key = "compile/_tensor_method.py:TensorMethod.__init__:target indexes have participants"
+    s_ = u(init)
+    loops_ = [n for n in init.body if isinstance(n, ast.For) and u(n.iter) == "problem.assignment.target.indexes"]
+    good = False
+    for l_ in loops_:
+        for st in l_.body:
+            if isinstance(st, ast.If) and any(isinstance(x, ast.Raise) and "BroadcastTargetIndexError" in u(x) for x in st.body):
+                if re.fullmatch(rf"{u(l_.target)} not in (\w+)", u(st.test)):
+                    good = True
+    if good and "set(problem.assignment.expression.index_participants().keys())" in s_:
         ctx.ok("C10.must-pass-through", key)
     else:
-        ctx.fail("C10.must-pass-through", key, "kernel is not called with (output, inputs) in the order of problem.formats")
+        ctx.fail("C10.must-pass-through", key, "TensorMethod.__init__ does not reject target indexes missing from the right-hand side (KeyError at call time)")
 
 
 def rule_call_semantics(ctx, ix):
@@ -592,43 +584,109 @@ def rule_call_semantics(ctx, ix):
 
 
 def rule_problem_validation(ctx, ix):
-    ctx.rule("C10.problem", "Problem/make_problem reject undefined, unused and wrong-order formats", min_instances=3)
-    pi = ix.func("tensora.problem.Problem.__post_init__").node
-    s = u(pi)
-    ctx.instance("C10.problem")
-    ok = (
-        "tensor_orders = self.assignment.variable_orders()" in s
-        and "for name, order in tensor_orders.items():" in s
-        and "if name not in self.formats:" in s
-        and "raise UndefinedReferenceError(" in s
-        and "elif order != self.formats[name].order:" in s
-        and "raise IncorrectDimensionsError(" in s
-        and not any(isinstance(x, (ast.Break, ast.Continue)) for x in ast.walk(pi))
-    )
-    if ok:
-        ctx.ok("C10.problem", "problem.py:Problem.__post_init__")
-    else:
-        ctx.fail("C10.problem", "problem.py:Problem.__post_init__", "not every name of variable_orders() is checked for presence and order")
-    mp = ix.func("tensora.problem.make_problem").node
-    s = u(mp)
-    ctx.instance("C10.problem")
-    ok = (
-        "for name in formats.keys():" in s
-        and "if name not in tensor_orders:" in s
-        and "return Failure(UnusedFormatError(name, assignment))" in s
-        and "except (UndefinedReferenceError, IncorrectDimensionsError) as error:" in s
-        and "return Failure(error)" in s
-        and "problem = Problem(assignment, new_formats)" in s
-    )
-    if ok:
-        ctx.ok("C10.problem", "problem.py:make_problem")
-    else:
-        ctx.fail("C10.problem", "problem.py:make_problem", "make_problem does not convert exactly the problem errors into Failure / reject unused formats")
-    ctx.instance("C10.problem")
-    if "new_formats[name] = Format(tuple([Mode.dense] * order), tuple(range(order)))" in s and "for name, order in tensor_orders.items():" in s and "new_formats[name] = formats[name]" in s:
-        ctx.ok("C10.problem", "problem.py:make_problem:defaults")
-    else:
-        ctx.fail("C10.problem", "problem.py:make_problem:defaults", "absent tensors are not filled with dense modes x order and the identity ordering, ordered by variable_orders()")
+    """Problem.__post_init__ and make_problem are evaluated abstractly (symeval) on symbolic assignments
+    and format tables: undefined references and wrong orders raise / become Failures, unused formats are
+    refused, absent tensors get dense modes x order with the identity ordering, and the resulting
+    format table is ordered by variable_orders()."""
+    from . import symeval as S
+
+    ctx.rule("C10.problem", "Problem/make_problem reject undefined, unused and wrong-order formats (abstract evaluation)", min_instances=8)
+    post = ix.func("tensora.problem.Problem.__post_init__").node
+    mk = ix.func("tensora.problem.make_problem").node
+
+    def exc(name):
+        return lambda *a, **k: S.Obj("Exception", name=name)
+
+    def problem_ctor(assignment, formats):
+        self_ = S.Obj("Problem", assignment=assignment, formats=formats)
+        for _assume, (kind, val) in S.explore(post, [self_], globals_=G):
+            if kind == "raise":
+                raise S.Raised(val)
+            if kind == "uninterpretable":
+                raise S.Uninterpretable(val)
+        return self_
+
+    def fmt_ctor(modes, ordering):
+        return S.make_format(tuple(modes), tuple(ordering))
+
+    G = {
+        "UndefinedReferenceError": exc("UndefinedReferenceError"),
+        "IncorrectDimensionsError": exc("IncorrectDimensionsError"),
+        "UnusedFormatError": exc("UnusedFormatError"),
+        "Failure": lambda e: S.Obj("Failure", error=e),
+        "Success": lambda v: S.Obj("Success", value=v),
+        "Problem": problem_ctor,
+        "Format": fmt_ctor,
+    }
+
+    def assignment(orders):
+        return S.Obj("Assignment", variable_orders=lambda: dict(orders))
+
+    def f(order, ordering=None):
+        return S.make_format((S.COMPRESSED,) * order, tuple(ordering or range(order)))
+
+    orders = {"y": 1, "A": 2, "x": 1}
+    cases = []
+    # (label, function, args, expectation)
+    cases.append(("Problem: all formats present", post, [S.Obj("Problem", assignment=assignment(orders), formats={"y": f(1), "A": f(2), "x": f(1)})], ("return", None)))
+    cases.append(("Problem: extra format is allowed", post, [S.Obj("Problem", assignment=assignment(orders), formats={"y": f(1), "A": f(2), "x": f(1), "z": f(3)})], ("return", None)))
+    cases.append(("Problem: undefined reference", post, [S.Obj("Problem", assignment=assignment(orders), formats={"y": f(1), "A": f(2)})], ("raise", "UndefinedReferenceError")))
+    cases.append(("Problem: last tensor has the wrong order", post, [S.Obj("Problem", assignment=assignment(orders), formats={"y": f(1), "A": f(2), "x": f(2)})], ("raise", "IncorrectDimensionsError")))
+    cases.append(("Problem: format of lower order", post, [S.Obj("Problem", assignment=assignment(orders), formats={"y": f(1), "A": f(1), "x": f(1)})], ("raise", "IncorrectDimensionsError")))
+    cases.append(("Problem: target has the wrong order", post, [S.Obj("Problem", assignment=assignment(orders), formats={"y": f(0), "A": f(2), "x": f(1)})], ("raise", "IncorrectDimensionsError")))
+    for label, fn, args, want in cases:
+        outs = list(S.explore(fn, args, globals_=G))
+        problems = []
+        for _a, (kind, val) in outs:
+            if kind != want[0] or (kind == "raise" and val != want[1]):
+                problems.append(f"outcome {kind} {val!r}, expected {want}")
+        ctx.instance("C10.problem")
+        key = f"problem.py:{label}"
+        if problems:
+            ctx.fail("C10.problem", key, "; ".join(problems))
+        else:
+            ctx.ok("C10.problem", key)
+    a_ = assignment(orders)
+    mk_cases = [
+        ("make_problem: formats given in another order are re-ordered", {"x": f(1), "y": f(1), "A": f(2, (1, 0))}, "ok"),
+        ("make_problem: absent tensors become dense with the identity ordering", {"A": f(2)}, "ok"),
+        ("make_problem: no formats at all", {}, "ok"),
+        ("make_problem: unused format", {"y": f(1), "A": f(2), "x": f(1), "z": f(1)}, "UnusedFormatError"),
+        ("make_problem: wrong order", {"A": f(3)}, "IncorrectDimensionsError"),
+    ]
+    for label, given, want in mk_cases:
+        outs = list(S.explore(mk, [a_, dict(given)], globals_=G))
+        problems = []
+        for _a, (kind, val) in outs:
+            if kind != "return" or not isinstance(val, S.Obj):
+                problems.append(f"outcome {kind} {val!r}")
+                continue
+            if want == "ok":
+                if val.tag != "Success":
+                    problems.append(f"returns {val.tag} for a valid request")
+                    continue
+                pr = val.attrs["value"]
+                fm = pr.attrs["formats"] if isinstance(pr, S.Obj) and "formats" in pr.attrs else None
+                if fm is None or list(fm) != list(orders):
+                    problems.append(f"format table keys {list(fm) if fm is not None else None} are not in the order of variable_orders() {list(orders)}")
+                    continue
+                for n, o in orders.items():
+                    if n in given:
+                        if fm[n] is not given[n]:
+                            problems.append(f"format of {n} is not the one given")
+                    else:
+                        ff = fm[n]
+                        if not (isinstance(ff, S.Obj) and ff.tag == "Format" and ff.attrs["modes"] == (S.DENSE,) * o and ff.attrs["ordering"] == tuple(range(o))):
+                            problems.append(f"absent tensor {n} is not filled with {o} dense levels in natural order")
+            else:
+                if not (val.tag == "Failure" and isinstance(val.attrs["error"], S.Obj) and val.attrs["error"].attrs.get("name") == want):
+                    problems.append(f"returns {val.tag} {val.attrs}, expected Failure({want})")
+        ctx.instance("C10.problem")
+        key = f"problem.py:{label}"
+        if problems:
+            ctx.fail("C10.problem", key, "; ".join(sorted(set(problems))))
+        else:
+            ctx.ok("C10.problem", key)
 
 
 # ------------------------------------------------------------------------------------------------
